@@ -18,6 +18,8 @@ use crate::world::{Env, Fault, Key, Range, SpanSel};
 pub enum Msg {
     Exact(String),
     Prefix(String),
+    /// the message names this subject (`name` in backticks); its wording is darling's business
+    Contains(String),
     /// a message the model does not predict (syn's own parse errors)
     Any,
 }
@@ -57,8 +59,20 @@ pub struct Abort(pub String);
 
 pub type M<T> = Result<T, Abort>;
 
-fn leaf(kind: &'static str, msg: impl Into<String>, span: SpanExp) -> Leaf {
-    Leaf { msg: Msg::Exact(msg.into()), path: Vec::new(), span, kind }
+/// A leaf made by darling itself. The property fixes *what* is reported (which mistake, where), not
+/// the wording: for mistakes about a name the message must name it; for the rest only kind, location
+/// and span are compared (`text` documents what darling says today).
+fn leaf(kind: &'static str, text: impl Into<String>, span: SpanExp) -> Leaf {
+    let text = text.into();
+    let msg = match kind {
+        "fault" => Msg::Exact(text),
+        "duplicate" | "missing" | "unknown" => match (text.find('`'), text.rfind('`')) {
+            (Some(a), Some(b)) if b > a => Msg::Contains(text[a..=b].to_string()),
+            _ => Msg::Any,
+        },
+        _ => Msg::Any,
+    };
+    Leaf { msg, path: Vec::new(), span, kind }
 }
 
 fn with_span(ls: &mut [Leaf], exp: SpanExp) {
@@ -613,7 +627,7 @@ impl<'a> Model<'a> {
                             } else if !allow_unknown {
                                 self.mistake("unknown_name");
                                 st.leaves.push(Leaf {
-                                    msg: Msg::Prefix(format!("Unknown field: `{}`", name)),
+                                    msg: Msg::Contains(format!("`{}`", name)),
                                     path: vec![],
                                     span: SpanExp::Within(it.r_item),
                                     kind: "unknown",
@@ -811,7 +825,7 @@ impl<'a> Model<'a> {
                         None => {
                             self.mistake("unknown_name");
                             Ok(Err(vec![Leaf {
-                                msg: Msg::Prefix(format!("Unknown field: `{}`", name)),
+                                msg: Msg::Contains(format!("`{}`", name)),
                                 path: vec![],
                                 span: SpanExp::Within(it.r_item),
                                 kind: "unknown",
@@ -990,7 +1004,8 @@ fn shape_of(f: &FieldsDoc) -> (&'static str, &'static str) {
 }
 
 fn shape_leaf(desc: &str) -> Leaf {
-    Leaf { msg: Msg::Prefix(format!("Unsupported shape `{}`", desc)), path: vec![], span: SpanExp::Unset, kind: "shape" }
+    let _ = desc;
+    Leaf { msg: Msg::Any, path: vec![], span: SpanExp::Unset, kind: "shape" }
 }
 
 impl<'a> Model<'a> {
@@ -1012,7 +1027,7 @@ impl<'a> Model<'a> {
                         Form::NV(_) => {
                             self.mistake("attr_name_value");
                             st.leaves.push(Leaf {
-                                msg: Msg::Prefix("Name-value arguments are not supported".into()),
+                                msg: Msg::Any,
                                 path: vec![],
                                 span: SpanExp::Within(it.r_item),
                                 kind: "attr_form",
